@@ -910,7 +910,7 @@ def c13(run, scratch):
                                            "output": r.out[-4000:]})
         run.add_tlc(f"MC_LineArith_{reader}_saturating", r, note="every field/line value at small width: no overflow, offset rule kept")
     linearith_proofs(run, scratch)
-    events = harness_trace(scratch, "retrace", "total", ["--seed", run.seed, "--n", 400 if t else 90, "--queries", 60,
+    events = harness_trace(scratch, "retrace", "total", ["--seed", run.seed, "--n", 150 if t else 90, "--queries", 60,
                                                          "--focus", "all", "--wild", "--files", ""])
     soup = harness_trace(scratch, "soup", "soup", ["--depth", 6 if t else 5])
     run.evaluations += sum(e["tried"] for e in soup)
